@@ -90,6 +90,7 @@ theorem Base.of_frame {E : Env} {P : State → Prop} (hM : IgnoresMembership P) 
     unfold Foca.addUpdate
     exact Pres.modS_of (fun s hs => hB _ _ (by simp only [OnlyBacklogs]) hs)
   modCtl := modCtl
-  modCustom := modCustom
+  setHst := (customLeaves_of (E := E) modCustom).1
+  addCustom := (customLeaves_of (E := E) modCustom).2
 
 end Foca
